@@ -809,6 +809,9 @@ class Canon:
         if isinstance(fn, tuple) and fn[:1] == ("g",) and fn[1] in ("sum", "any", "all", "min", "max", "sorted", "set", "frozenset", "tuple", "list", "dict") \
                 and len(args) >= 1 and isinstance(args[0], tuple) and args[0][:2] == ("comp", "list"):
             args = [("comp", "gen") + tuple(args[0][2:])] + list(args[1:])
+        # isinstance(x, (A, B)) == isinstance(x, A) or isinstance(x, B)
+        if fn == ("g", "isinstance") and len(args) == 2 and not kwargs and isinstance(args[1], tuple) and args[1][:1] == ("tuple",) and args[1][1]:
+            return mk_or([mk_call(fn, [args[0], t], []) for t in args[1][1]])
         # range(0, n) == range(n)
         if fn == ("g", "range") and len(args) == 2 and args[0] == k_num(0):
             args = [args[1]]
